@@ -280,9 +280,15 @@ static void stress_round(sup::Ctx& ctx, uint64_t seed, long round, int k, const 
               if (!(l == cctz::utc_time_zone()) && l.name().empty()) o.bad.push_back("local_time_zone() has no name");
               break;
             }
-            case 1:
+            case 1: {
               if (cctz::utc_time_zone().name() != "UTC") o.bad.push_back("utc_time_zone().name()");
+              // the informational accessors too (their content is unspecified, but they must be stable and race-free)
+              int j = (int)r.range(0, nz - 1);
+              std::string v1 = shared[j].version(), d1 = shared[j].description();
+              if (v1 != shared[j].version() || d1 != shared[j].description() || cctz::utc_time_zone().version() != cctz::utc_time_zone().version())
+                o.bad.push_back("version()/description() of a loaded zone changed between two calls");
               break;
+            }
             case 2: {
               long off = r.range(-86400, 86400);
               cctz::time_zone f = cctz::fixed_time_zone(cctz::seconds(off));
